@@ -132,7 +132,13 @@ def emit_through_driver(step_of_task, first_step_samples, stats):
         for bi, bs in enumerate(batches):
             before = len(store.throughput)
             # an UpdateSamples message is pickled on its way from the worker to the driver: every batch brings its own copies of the Task objects
-            d.update_samples(pickle.loads(pickle.dumps([sobjs[i] for i in bs])))
+            # (and one post-processing batch is made of several such messages: other workers, several wake-ups of one worker)
+            nmsg = 1 + (bi + len(bs)) % 3
+            for m in range(nmsg):
+                part = [sobjs[i] for i in bs[m * len(bs) // nmsg:(m + 1) * len(bs) // nmsg]]
+                if part:
+                    d.update_samples(pickle.loads(pickle.dumps(part)))
+                    stats["messages"] = stats.get("messages", 0) + 1
             fed += len(bs)
             last_of_step = fed == first_step_samples or fed == len(sobjs)
             if last_of_step:
@@ -163,6 +169,8 @@ def one_case(ctx, rng, explicit=None):
         feats.add("driver-tick-then-join-point")
     if len(set(meta["step_of_task"])) > 1:
         feats.add("driver-two-steps")
+    if stats.get("messages", 0) > stats["tick-batches"] + stats["join-batches"]:
+        feats.add("driver-batch-of-several-messages")
     if arrival and stats.get("complete") != 1:
         problems.append(("driver-keeps-calculator-across-batches", f"the driver did not complete the benchmark after the last join point (on_benchmark_complete called {stats.get('complete')} times)", None))
     ctx.case(["driver", [(s["task"], s["client"], round(s["t"], 9), s["ops"], s["type"], s["thr"]) for s in arrival], cuts], len(arrival) >= 3 and len(cuts) >= 1, feats)
